@@ -300,6 +300,9 @@ static void c18_order(vr_rng *r)
     char *buf = NULL; size_t bl = 0; FILE *mf;
     /* ---- dataset: sort */
     struct cmb_dataset *d = cmb_dataset_create();
+    /* an earlier life in one case out of three: filled (beyond the first array growth in half of them), sorted, reset */
+    if (vr_chance(r, 1, 3)) { size_t m0 = vr_chance(r, 1, 2) ? 7 : 1500; for (size_t k = 0; k < m0; k++) cmb_dataset_add(d, 1e4 - (double)k); cmb_dataset_sort(d); (void)cmb_dataset_median(d); cmb_dataset_reset(d); VR_CNT("datasets_with_an_earlier_life");
+        if (cmb_dataset_count(d) != 0) vr_violation("C18/dataset-reset", "a reset dataset reports %" PRIu64 " samples", cmb_dataset_count(d)); }
     for (size_t k = 0; k < n; k++) cmb_dataset_add(d, x[k]);
     double *sorted = malloc((n + 1) * sizeof *sorted); memcpy(sorted, x, n * sizeof *x); qsort(sorted, n, sizeof *sorted, cmp_d);
     /* copy first (copies must be exact and must not share storage) */
@@ -349,6 +352,8 @@ static void c18_order(vr_rng *r)
         static const char *wn[] = { "equal", "random", "dominant", "zero-durations", "dominant-first", "dominant-last" };
         vr_cnt_dyn(wpat == 0 ? "w_equal" : wpat == 1 ? "w_random" : wpat == 3 ? "w_zero_durations" : "w_dominant", 1);
         struct cmb_timeseries *ts = cmb_timeseries_create();
+        if (vr_chance(r, 1, 3)) { size_t m0 = vr_chance(r, 1, 2) ? 5 : 1300; for (size_t k = 0; k < m0; k++) cmb_timeseries_add(ts, (double)(k % 7), 0.5 * (double)k); cmb_timeseries_finalize(ts, 0.5 * (double)m0 + 3.0); cmb_timeseries_sort_x(ts); (void)cmb_timeseries_median(ts); cmb_timeseries_reset(ts); VR_CNT("series_with_an_earlier_life");
+            if (cmb_timeseries_count(ts) != 0) vr_violation("C18/ts-reset", "a reset time series reports %" PRIu64 " samples", cmb_timeseries_count(ts)); }
         struct trip *tr = malloc((n + 2) * sizeof *tr), *tr2 = malloc((n + 2) * sizeof *tr2);
         bool finalized = vr_chance(r, 3, 4);
         if (finalized) build_ts(r, ts, x, n, wpat, tr);
